@@ -88,6 +88,11 @@ class Eval:
                 if x < y:
                     raise ErrPath()
                 return x - y
+            if nm == "clamp" and len(t["a"]) == 3:
+                x, lo, hi = (self.poly(sym.operand(o)) for o in t["a"])
+                if lo > hi:
+                    raise ErrPath()
+                return min(max(x, lo), hi)
             if nm == "next_multiple_of" and len(t["a"]) == 2:
                 x, m = self.poly(sym.operand(t["a"][0])), self.poly(sym.operand(t["a"][1]))
                 if m <= 0:
